@@ -341,6 +341,57 @@ def legacy_tables():
     return raw, reds, ar
 
 
+# ------------------------------------------------------------------ 6. pair-or-broadcast decision of the product-space wrapper
+PAIR_CONDS = {'x2 in self.elem.space': 'PairIfInSpace', 'isinstance(x2, type(self.elem))': 'PairIfSameType'}
+PAIR_BODY = [
+    "result = [getattr(x.ufuncs, name)(x2p, **kwargs) for x, x2p in zip(self.elem, x2)]",
+    "return self.elem.space.element(result)",
+    "for x, x2p, outp in zip(self.elem, x2, out):\n    getattr(x.ufuncs, name)(x2p, out=outp, **kwargs)",
+    "return out"]
+BCAST_BODY = [
+    "result = [getattr(x.ufuncs, name)(x2, **kwargs) for x in self.elem]",
+    "return self.elem.space.element(result)",
+    "for x, outp in zip(self.elem, out):\n    getattr(x.ufuncs, name)(x2, out=outp, **kwargs)",
+    "return out"]
+
+
+def pair_decision():
+    t = _tree(UFN)
+    wp = [n for n in t.body if isinstance(n, ast.FunctionDef) and n.name == 'wrap_ufunc_productspace']
+    if len(wp) != 1:
+        fail(UFN, None, 'wrap_ufunc_productspace not found')
+    tops = [s for s in _body(wp[0]) if isinstance(s, ast.If) and U(s.test).startswith('n_in ==')]
+    if len(tops) != 1:
+        fail(UFN, wp[0], 'arity dispatch of wrap_ufunc_productspace not found')
+    chain, _ = _if_chain(UFN, tops[0])
+    two = [b for tst, b in chain if U(tst) == 'n_in == 2']
+    if len(two) != 1 or not (len(two[0]) == 1 and isinstance(two[0][0], ast.If) and U(two[0][0].test) == 'n_out == 1'):
+        fail(UFN, tops[0], 'binary branch not found')
+    defs = two[0][0].body
+    if not (len(defs) == 1 and isinstance(defs[0], ast.FunctionDef) and
+            U(defs[0].args) == 'self, x2, out=None, **kwargs'):
+        fail(UFN, two[0][0], 'unexpected binary wrapper')
+    body = _body(defs[0])
+    if not (len(body) == 1 and isinstance(body[0], ast.If)):
+        fail(UFN, defs[0], 'binary wrapper is not a single if')
+    top = body[0]
+    cond = PAIR_CONDS.get(U(top.test))
+    if cond is None:
+        fail(UFN, top.test, 'unknown pairing condition')
+
+    def two_way(stmts, want, what):
+        if not (len(stmts) == 1 and isinstance(stmts[0], ast.If) and U(stmts[0].test) == 'out is None'):
+            fail(UFN, stmts[0], what + ': expected `if out is None`')
+        got = [U(s) for s in stmts[0].body] + [U(s) for s in stmts[0].orelse]
+        if got != want:
+            fail(UFN, stmts[0], what + ': unexpected statements')
+    two_way(top.body, PAIR_BODY, 'pairing branch')
+    orelse = top.orelse
+    # `elif out is None: ... else: ...` is the same as `else: if out is None: ...`
+    two_way(orelse, BCAST_BODY, 'broadcasting branch')
+    return cond
+
+
 # ------------------------------------------------------------------ emit
 def translate():
     lt = len_guard(NPY, _method(NPY, 'NumpyTensor', '__array_ufunc__'))
@@ -350,6 +401,7 @@ def translate():
     call1, call2, meth = tensor_rules()
     rej = disc_rejects()
     raw, reds, ar = legacy_tables()
+    pc = pair_decision()
     out = ['(* GENERATED by translate/ufunc_dispatch.py from the current source of /repo -- do not edit. *)',
            'From Coq Require Import List Bool Arith String.',
            'From Verif Require Import C17.Syntax C17.Model.',
@@ -369,6 +421,8 @@ def translate():
            '',
            'Definition gen_legacy_reductions : list (string * string) :=\n  [%s].'
            % '; '.join('("%s", "%s")' % r for r in reds),
+           '(* binary ProductSpaceUfuncs wrapper: pair the components of self and x2 iff ... else hand x2 to every part *)',
+           'Definition gen_pair_cond : paircond := %s.' % pc,
            'Definition gen_legacy_arities : list (nat * nat) := [%s]%%nat.'
            % '; '.join('(%d, %d)' % a for a in ar),
            'Definition gen_raw_ufuncs : list string :=\n  [%s].' % '; '.join('"%s"' % n for n in raw),
